@@ -34,36 +34,6 @@ Proof.
     apply present_old_in; auto.
 Qed.
 
-(* the participant-level operation behind a mail *)
-Definition part_op (pr : profile) (o : fop) : option (handle * (part -> part * ret)) :=
-  match o with
-  | FSetFactoryQos _ | FCreatePart _ | FDeletePart _ => None
-  | FCreateGroup sd ph q => Some (ph, fun p => create_group pr sd p q)
-  | FDeleteGroup sd ph parent gh => Some (ph, fun p => delete_group sd p parent gh)
-  | FCreateTopic ph name q => Some (ph, fun p => create_topic pr p name q)
-  | FDeleteTopic ph parent name => Some (ph, fun p => delete_topic p parent name)
-  | FCreateCft ph name related => Some (ph, fun p => create_cft pr p name related)
-  | FDeleteCft ph name => Some (ph, fun p => delete_cft p name)
-  | FCreateEp sd ph gh name q => Some (ph, fun p => create_endpoint pr sd p gh name q)
-  | FDeleteEp sd ph gh eh => Some (ph, fun p => delete_endpoint sd p gh eh)
-  | FDeleteContained ph => Some (ph, delete_contained)
-  | FGetPartQos ph => Some (ph, fun p => (p, RPQ (pa_q p)))
-  | FSetPartQos ph q => Some (ph, fun p => set_part_qos p q)
-  | FEnablePart ph => Some (ph, enable_part)
-  | FGetGroupQos sd ph gh => Some (ph, fun p => get_group_qos sd p gh)
-  | FSetGroupQos sd ph gh q => Some (ph, fun p => set_group_qos sd p gh q)
-  | FGetEpQos sd ph gh eh => Some (ph, fun p => get_ep_qos sd p gh eh)
-  | FSetEpQos sd ph gh eh q => Some (ph, fun p => set_ep_qos sd p gh eh q)
-  | FEnableEp sd ph gh eh => Some (ph, fun p => enable_ep sd p gh eh)
-  | FStatusEp sd ph gh eh => Some (ph, fun p => status_ep sd p gh eh)
-  | FGetTopicQos ph name => Some (ph, fun p => get_topic_qos p name)
-  | FSetTopicQos ph name q => Some (ph, fun p => set_topic_qos p name q)
-  | FEnableTopic ph name => Some (ph, fun p => enable_topic p name)
-  end.
-
-Lemma part_op_spec : forall pr o ph k f, part_op pr o = Some (ph, k) -> fstep pr f o = with_part f ph k.
-Proof. intros pr o ph k f H. destruct o; cbn in H; inversion H; subst; reflexivity. Qed.
-
 Lemma part_op_grows : forall pr o ph k, part_op pr o = Some (ph, k) -> grows k.
 Proof.
   intros pr o ph k H. destruct o; cbn in H; inversion H; subst; clear H.
@@ -90,64 +60,19 @@ Proof.
   - apply grows_keeps, ks_enable_topic.
 Qed.
 
-Lemma part_op_preserves : forall pr o ph k, part_op pr o = Some (ph, k) -> preserves k.
-Proof.
-  intros pr o ph k H. destruct o; cbn in H; inversion H; subst; clear H.
-  - apply pres_create_group.
-  - apply pres_delete_group.
-  - apply pres_create_topic.
-  - apply pres_delete_topic.
-  - apply pres_create_cft.
-  - apply keeps_preserves; [apply ks_delete_cft|intros; discriminate].
-  - apply pres_create_endpoint.
-  - apply pres_delete_endpoint.
-  - apply pres_delete_contained.
-  - apply keeps_preserves; [apply ks_get_part_qos|intros; discriminate].
-  - apply keeps_preserves; [apply ks_set_part_qos|intros; discriminate].
-  - apply keeps_preserves; [apply ks_enable_part|intros p; unfold enable_part; destruct (pa_en p); discriminate].
-  - apply keeps_preserves; [apply ks_get_group_qos|].
-    intros p; unfold get_group_qos; destruct (find_first (is_group gh) (groups sd p)); discriminate.
-  - apply keeps_preserves; [apply ks_set_group_qos|].
-    intros p; unfold set_group_qos; destruct (find_first (is_group gh) (groups sd p)); [|discriminate].
-    match goal with |- context [if ?c then _ else _] => destruct c end; discriminate.
-  - apply keeps_preserves; [apply ks_get_ep_qos|].
-    intros p; unfold get_ep_qos; destruct (find_first (is_group gh) (groups sd p)); [|discriminate].
-    destruct (find_first (is_ep eh) (g_eps g)); discriminate.
-  - apply keeps_preserves; [apply ks_set_ep_qos|].
-    intros p; unfold set_ep_qos; destruct (find_first (is_group gh) (groups sd p)); [|discriminate].
-    destruct (find_first (is_ep eh) (g_eps g)); [|discriminate].
-    repeat (match goal with |- context [if ?c then _ else _] => destruct c end; try discriminate).
-  - apply keeps_preserves; [apply ks_enable_ep|].
-    intros p; unfold enable_ep; destruct (find_first (is_group gh) (groups sd p)); [|discriminate].
-    destruct (find_first (is_ep eh) (g_eps g)); discriminate.
-  - apply keeps_preserves; [apply ks_status_ep|].
-    intros p; unfold status_ep; destruct (find_first (is_group gh) (groups sd p)); [|discriminate].
-    destruct (find_first (is_ep eh) (g_eps g)); discriminate.
-  - apply keeps_preserves; [apply ks_get_topic_qos|].
-    intros p; unfold get_topic_qos; destruct (find_first (is_topic name) (pa_topics p)); discriminate.
-  - apply keeps_preserves; [apply ks_set_topic_qos|].
-    intros p; unfold set_topic_qos; destruct (find_first (is_topic name) (pa_topics p)); [|discriminate].
-    repeat (match goal with |- context [if ?c then _ else _] => destruct c end; try discriminate).
-  - apply keeps_preserves; [apply ks_enable_topic|].
-    intros p; unfold enable_topic; destruct (find_first (is_topic name) (pa_topics p)); discriminate.
-Qed.
-
 (* one step: old handles stay old, and whatever is present afterwards was present before or is not old *)
 Lemma with_part_old : forall f ph k f' r h,
-    preserves k -> grows k -> finv f -> with_part f ph k = (f', r) -> any_ovf f' = false ->
+    preserves k -> grows k -> finv f -> with_part f ph k = (f', r) ->
     (old f h -> old f' h) /\
     (In h (all_handles f') -> In h (all_handles f) \/ ~ old f h).
 Proof.
-  intros f ph k f' r h Hpres Hgr Hinv Hw Ho. unfold with_part in Hw.
+  intros f ph k f' r h Hpres Hgr Hinv Hw. unfold with_part in Hw.
   destruct (find_part f ph) as [p|] eqn:Hf; [|inversion Hw; subst; auto].
   destruct (k p) as [p' r'] eqn:Hkp. inversion Hw; subst; clear Hw.
   unfold find_part in Hf. destruct (find_first_some _ _ _ Hf) as [Hin _].
   pose proof Hinv as (_ & Hp & _ & _). rewrite Forall_forall in Hp.
-  unfold any_ovf in Ho. cbn [f_ovf f_parts set_parts] in Ho. apply orb_false_iff in Ho. destruct Ho as [_ Hpo].
-  assert (Hin' : In p' (upd_first (is_part ph) (fun _ => p') (f_parts f))) by (eapply in_upd_first_new; eauto).
-  assert (Hp'o : pa_ovf p' = false) by (eapply existsb_false_in; eauto).
   specialize (Hpres p (Hp p Hin)). specialize (Hgr p (Hp p Hin)). rewrite Hkp in *. cbn [fst snd] in *.
-  destruct (Hpres Hp'o) as (Hi' & Hh' & _ & _). destruct (Hgr Hp'o) as [Hcnt Hnew].
+  destruct Hpres as (Hi' & Hh' & _). destruct Hgr as [Hcnt Hnew].
   split.
   - intros [Hr Hold]. split; [exact Hr|]. cbn [f_parts set_parts]. intros q Hq E.
     apply upd_first_in in Hq. destruct Hq as [Hq|(y & Hy & _ & ->)]; [auto|].
@@ -173,8 +98,8 @@ Proof.
     + inversion Hs; subst. split; auto.
     + (* create participant *)
       unfold create_part in Hs. inversion Hs; subst; clear Hs.
-      unfold any_ovf in Ho. cbn [f_ovf f_parts] in Ho. apply orb_false_iff in Ho. destruct Ho as [Ho1 _].
-      apply orb_false_iff in Ho1. destruct Ho1 as [_ Hmax]. apply Z.eqb_neq in Hmax.
+      unfold any_ovf in Ho. cbn [f_ovf f_parts] in Ho. apply orb_false_iff in Ho. destruct Ho as [_ Hmax].
+      apply Z.eqb_neq in Hmax.
       destruct Hinv as (Hn & _).
       assert (Hw : wrap_u32 (f_next f + 1) = f_next f + 1).
       { unfold wrap_u32, two32, u32_max in *. rewrite Z.mod_small; lia. }
